@@ -5,8 +5,19 @@ import vlib
 
 LEVEL = "proof"
 HERE = os.path.dirname(os.path.abspath(__file__))
-MODELLED = ("ptr", "hex2bin", "atoi2", "unesc", "num", "xstr")   # commands answered by the extracted model as well
+MODELLED = ("ptr", "hex2bin", "atoi2", "unesc", "num", "xstr", "rem", "re")   # commands answered by the extracted model as well
+PURE_MODEL = ("rem", "re")        # the model of these has no ambient state at all (no errno parameter): asked once
 ERANGE, EINVAL = 34, 22
+# The determinism oracle ("depends only on the input").  Every query is answered under each of these states of the world;
+# the harness line prefix is <errno>:<fill byte of caller-provided output storage and of the stack below the call>[:w]
+# (w = the objects that live across calls - compiled regex and its match array, pool, out buffer - have already served
+# another call).  All answers must be equal, and equal to the model, whose result is a function of the query alone.
+#   name   build   heap (fresh allocations)         prefix
+STATES = [
+    ("fresh", "asan", "malloc_fill_byte=190", lambda e: "0:00"),
+    ("after-history", "asan", "malloc_fill_byte=90", lambda e: "%d:a5:w" % e),
+    ("reused-heap", "plain", None, lambda e: "%d:ff" % (ERANGE + EINVAL - e)),   # glibc: freed chunks come back with their old bytes
+]
 
 
 def hx(b):
@@ -324,6 +335,69 @@ def g_regex_big(rng):
     return b"[a-z]" * rng.choice([100, 400, 409, 410, 1000])
 
 
+RE_SIZES = [0, 1, 2, 3, 4, 5, 6, 8, 10, 16, 30, 31, 32, 33, 62, 63, 64, 65, 66, 80, 128, 200]
+
+
+def g_rem(rng):
+    """iwre_match with an output array of every size class: (pattern, text, slots).  The pattern has 0..40 capture groups
+    of which all / some / none take part in the match (boundaries: group 31 = slots 62/63, the last pair a VM thread
+    records; group 32 = the first one it drops)."""
+    k = rng.choice([0, 1, 2, 30, 31, 32, 33, 40]) if rng.chance(1, 3) else rng.range(0, 40)
+    mode = rng.weighted([("all", 5), ("some", 4), ("none", 2), ("one", 3), ("nested", 2)])
+    hole = rng.choice([0, k - 1, 29, 30, 31, 32, rng.below(max(k, 1))])
+    pat, text = b"", b""
+    i = 0
+    while i < k:
+        c = rng.choice(b"abc")
+        ch = bytes([c])
+        takes = mode == "all" or mode == "nested" or (mode == "some" and rng.chance(3, 4)) or (mode == "one" and i != hole)
+        if mode == "none":
+            takes = False
+        if mode == "nested" and i + 2 < k and rng.chance(1, 3):
+            form = rng.below(3)
+            if form == 0:
+                pat += b"((" + ch + b")(" + ch + b"))"; text += ch + ch
+            elif form == 1:
+                pat += b"((a)|(b)){2}"; text += rng.choice([b"ab", b"ba", b"aa"])      # copies of a repeated group share numbers
+            else:
+                pat += b"((" + ch + b")+(z)?)"; text += ch * rng.range(1, 3)
+            i += 3
+            continue
+        if takes:
+            f = rng.below(8)
+            if f < 3:
+                pat += b"(" + ch + b")"; text += ch
+            elif f == 3:
+                pat += b"(" + ch + b"+)"; text += ch * rng.range(1, 2)
+            elif f == 4:
+                pat += b"(" + ch + b"|z)"; text += ch
+            elif f == 5:
+                pat += b"([a-c])"; text += ch
+            elif f == 6:
+                pat += b"(.)"; text += ch
+            else:
+                pat += b"(" + ch + b"?)"; text += ch if rng.chance(1, 2) else b""    # takes part with an empty match
+        else:
+            pat += rng.choice([b"(z)?", b"(z)?", b"(z)*", b"(z){0,2}", b"(z){0}", b"(z)??"])
+        i += 1
+    if k == 0:
+        pat = rng.choice([b"a", b"ab*", b".", b"a|b", b"[ab]+"]); text = rng.choice([b"a", b"ab", b"", b"b"])
+    if rng.chance(1, 2):
+        pat = b"^" + pat
+    elif rng.chance(1, 2):
+        text = rng.choice([b"x", b"zz", b"a"]) + text          # the implicit .*? has to skip something
+    if rng.chance(1, 4):
+        pat += b"$"
+    if rng.chance(1, 5):
+        text += rng.choice([b"x", b"a", b"zz"])
+    if rng.chance(1, 8) and text:
+        j = rng.below(len(text)); text = text[:j] + b"y" + text[j + 1:]      # (mostly) no match at all
+    if rng.chance(1, 10):
+        pat, text = g_regex(rng).replace(b"\x00", b""), g_text(rng)
+    n = rng.choice(RE_SIZES) if rng.chance(7, 8) else rng.below(211)
+    return "rem %s %s %d" % (hx(pat), hx(text), n)
+
+
 def g_text(rng):
     return bytes(rng.choice(b"aabbcx0.") for _ in range(rng.weighted([(0, 2), (1, 3), (3, 4), (8, 2), (30, 1)])))
 
@@ -373,6 +447,8 @@ def gen(rng, n):
         L.append("ini " + hx(g_ini(rng)))
         pat = g_regex(rng) if rng.chance(2, 3) else g_regex_bad(rng)
         L.append("re %s %s" % (hx(pat.replace(b"\x00", b"")), hx(g_text(rng))))
+        for _ in range(3):
+            L.append(g_rem(rng))
     for _ in range(max(2, n // 40)):
         L.append("re %s %s" % (hx(g_regex_big(rng)), hx(rng.choice([b"", b"a", b"a" * 40, b"ab" * 20]))))
         L.append("json " + hx(g_nest(rng)))
@@ -488,6 +564,11 @@ def run_all(exe, numbered, env_extra, timeout=120, bsz=64):
     return ans, finds
 
 
+def shorten(a, n=90):
+    """long regex answers: keep the head and the tail (where the stale slots are)"""
+    return a if len(a) <= n else a[:n // 2] + " ... " + a[-n // 2:]
+
+
 def slug(key):
     return re.sub(r"[^A-Za-z0-9]+", "-", key).strip("-")[:70]
 
@@ -523,33 +604,42 @@ def check(run):
     for c in cmds:
         run.dist(c.split()[0])
 
-    # (a) fresh state: errno 0, generation order.  (b) other history: reversed order inside shuffled batches, errno
-    # pre-set to ERANGE / EINVAL, heap filled with another byte (uninitialised reads show up as a different answer)
-    A = ["0 " + c for c in cmds]
-    perm = list(range(len(cmds)))
-    for i in range(len(perm) - 1, 0, -1):
-        j = rng.below(i + 1); perm[i], perm[j] = perm[j], perm[i]
+    # every state of the world (STATES): the fresh one in generation order, the others in their own shuffled order
     eb = [ERANGE if rng.chance(2, 3) else EINVAL for _ in cmds]
-    B = ["%d %s" % (eb[i], cmds[i]) for i in perm]
-    ansA, findA = run_all(asan, A, {"ASAN_OPTIONS": "malloc_fill_byte=190"})
-    ansBp, findBp = run_all(asan, B, {"ASAN_OPTIONS": "malloc_fill_byte=90"})
-    ansB = [None] * len(cmds)
-    for pos, i in enumerate(perm):
-        ansB[i] = ansBp[pos]
-    findB = [(perm[pos], k, e) for pos, k, e in findBp]
+    exes = {"asan": asan}
+    if any(b == "plain" for _, b, _, _ in STATES):
+        exes["plain"] = vlib.build_harness("h_safety", "plain")
+    ANS, FINDS = [], []
+    for si, (sname, build, heap, prefix) in enumerate(STATES):
+        perm = list(range(len(cmds)))
+        if si:
+            for i in range(len(perm) - 1, 0, -1):
+                j = rng.below(i + 1); perm[i], perm[j] = perm[j], perm[i]
+        lines = ["%s %s" % (prefix(eb[i]), cmds[i]) for i in perm]
+        ap, fp = run_all(exes[build], lines, {"ASAN_OPTIONS": heap or ""})
+        ans = [None] * len(cmds)
+        for pos, i in enumerate(perm):
+            ans[i] = ap[pos]
+        ANS.append(ans)
+        FINDS.append([(perm[pos], k, e) for pos, k, e in fp])
+    ansA, ansB = ANS[0], ANS[1]
+    findA = FINDS[0]
+    findB = [f for fs in FINDS[1:] for f in fs]
 
     # model side: once for the fresh state (errno 0), once with the errno the history run pre-set
     midx = [i for i, c in enumerate(cmds) if c.split()[0] in MODELLED]
-    rc, mout, merr = vlib.run_lines(model, "\n".join([cmds[i] for i in midx] + ["%s @%d" % (cmds[i], eb[i]) for i in midx] + ["facts"]) + "\n",
+    midx2 = [i for i in midx if cmds[i].split()[0] not in PURE_MODEL]
+    rc, mout, merr = vlib.run_lines(model, "\n".join([cmds[i] for i in midx] + ["%s @%d" % (cmds[i], eb[i]) for i in midx2] + ["facts"]) + "\n",
                                     timeout=600)
     if rc != 0:
         run.broken.append("T2 model driver exited %d: %s" % (rc, merr[-400:]))
     ansM = {i: (mout[k] if k < len(mout) else "<missing>") for k, i in enumerate(midx)}
-    ansMB = {i: (mout[len(midx) + k] if len(midx) + k < len(mout) else "<missing>") for k, i in enumerate(midx)}
+    ansMB = dict(ansM)
+    ansMB.update({i: (mout[len(midx) + k] if len(midx) + k < len(mout) else "<missing>") for k, i in enumerate(midx2)})
 
     # ---- oracle 1: sanitizer report / crash / timeout on the implementation = violation (replay = the query line)
     best = {}
-    for src, finds in (("fresh", findA), ("after-history", findB)):
+    for src, finds in [(STATES[si][0], FINDS[si]) for si in range(len(STATES))]:
         for i, key, err in finds:
             cur = best.get(key)
             if cur is None or len(cmds[i]) < len(cmds[cur[0]]):
@@ -557,25 +647,35 @@ def check(run):
     for key in sorted(best):
         i, src, err = best[key]
         why = [l for l in err.split("\n") if "ERROR" in l or "runtime error" in l or "SUMMARY" in l or "Assertion" in l]
+        si = [n for n, _, _, _ in STATES].index(src)
         run.violation({"query": cmds[i], "kind": "sanitizer", "key": key, "errno": 0 if src == "fresh" else eb[i], "state": src,
-                       "report": why[:3]},
+                       "prefix": STATES[si][3](eb[i]), "report": why[:3]},
                       "%s on `%s`" % (key, cmds[i][:200]), name=slug(key))
-    crashed = set(i for i, _, _ in findA) | set(i for i, _, _ in findB)
+    crashed = set(i for fs in FINDS for i, _, _ in fs)
 
-    # ---- oracle 2: the answer is a function of the input alone (fresh vs. after other inputs / stale errno / dirty heap)
+    # ---- oracle 2: the answer is a function of the input alone: all states of the world must give the same complete answer
+    # (return value, every output slot, errno where the API defines it).  Per command the most telling example is kept:
+    # one whose leading field (the return value) differs, then the shortest query.
     hist = {}
     for i, c in enumerate(cmds):
-        if i in crashed or ansA[i] is None or ansB[i] is None:
+        if i in crashed or ansA[i] is None:
             continue
-        if ansA[i] != ansB[i]:
+        for si in range(1, len(STATES)):
+            o = ANS[si][i]
+            if o is None or o == ansA[i]:
+                continue
             k = c.split()[0]
-            if k not in hist or len(c) < len(cmds[hist[k]]):
-                hist[k] = i
+            rank = (0 if ansA[i].split(" ")[0] != o.split(" ")[0] else 1, len(c))
+            if k not in hist or rank < hist[k][0]:
+                hist[k] = (rank, i, si)
     for k in sorted(hist):
-        i = hist[k]
-        run.violation({"query": cmds[i], "kind": "history", "key": "history:" + k, "fresh": ansA[i], "after": ansB[i], "errno": eb[i]},
-                      "answer depends on the history (errno=%d / heap contents): `%s` fresh=`%s` after=`%s`" % (
-                          eb[i], cmds[i][:120], ansA[i][:80], ansB[i][:80]), name="history-" + k)
+        _, i, si = hist[k]
+        sname, other = STATES[si][0], ANS[si][i]
+        pre = STATES[si][3](eb[i])
+        run.violation({"query": cmds[i], "kind": "history", "key": "history:" + k, "fresh": ansA[i][:400], "after": other[:400],
+                       "errno": eb[i], "state": sname, "prefix": pre},
+                      "answer depends on more than the input (state `%s`, harness prefix %s = errno:fill of caller storage/stack[:warm]): "
+                      "`%s` fresh=`%s` %s=`%s`" % (sname, pre, cmds[i][:160], shorten(ansA[i]), sname, shorten(other)), name="history-" + k)
 
     # ---- T2: extracted model == implementation on the modelled functions.  The model also predicts the defects of the
     # variant Gen/Facts.v selected: OOB = access outside the buffer (=> ASan report), UNINIT = the answer shows a cell that
@@ -590,6 +690,8 @@ def check(run):
     keys_of = {i: keysA.get(i, set()) | keysB.get(i, set()) for i in set(keysA) | set(keysB)}
 
     def agrees(m, a, ks, other):
+        if m == "BIG":                   # regex program too large for the list machine: not compared
+            return True
         if m.startswith("OOB"):
             return any(k.startswith("asan:") for k in ks)
         if m == "UNINIT":
@@ -601,28 +703,40 @@ def check(run):
         return (not ks) and a == m
     mism = []
     for i in midx:
-        if not (agrees(ansM[i], ansA[i], keysA.get(i, set()), ansB[i]) and agrees(ansMB[i], ansB[i], keysB.get(i, set()), ansA[i])):
+        ok = agrees(ansM[i], ansA[i], keysA.get(i, set()), ansB[i])
+        for si in range(1, len(STATES)):
+            ok = ok and agrees(ansMB[i], ANS[si][i], keysB.get(i, set()), ansA[i])
+        if not ok:
             mism.append(i)
     run.cov["traces_validated_against_impl"] = len(midx) - len(mism)
-    run.cov["model_variant"] = mout[2 * len(midx)] if len(mout) > 2 * len(midx) else ""
+    run.cov["model_variant"] = mout[len(midx) + len(midx2)] if len(mout) > len(midx) + len(midx2) else ""
+    run.cov["regex_programs_too_big_for_model"] = sum(1 for i in midx if ansM[i] == "BIG")
     if mism:
         i = mism[0]
         if os.environ.get("VERIF_DEBUG"):
             for j in mism[:40]:
-                print("MISMATCH `%s` impl=`%s`/`%s` %s model=`%s`/`%s`" % (cmds[j], ansA[j], ansB[j], sorted(keys_of.get(j, [])), ansM[j], ansMB[j]))
-        run.broken.append("T2 correspondence: %d of %d modelled queries differ, first: `%s` impl=`%s` %s model=`%s`" % (
-            len(mism), len(midx), cmds[i], ansA[i], sorted(keys_of.get(i, [])), ansM[i]))
+                print("MISMATCH `%s` impl=%s %s model=`%s`/`%s`" % (cmds[j], "/".join("`%s`" % ANS[si][j] for si in range(len(STATES))),
+                                                                    sorted(keys_of.get(j, [])), ansM[j], ansMB[j]))
+        run.broken.append("T2 correspondence: %d of %d modelled queries differ, first: `%s` impl=%s %s model=`%s`" % (
+            len(mism), len(midx), cmds[i][:160], " / ".join("`%s`" % shorten(ANS[si][i] or "<none>") for si in range(len(STATES))),
+            sorted(keys_of.get(i, [])), shorten(ansM[i])))
 
     for i, c in enumerate(cmds):
-        run.case(c, nontrivial=True, sample=({"query": c, "fresh": ansA[i], "after": ansB[i], "model": ansM.get(i)}
+        run.case(c, nontrivial=True, sample=({"query": c[:300], "fresh": (ansA[i] or "")[:300], "after": (ansB[i] or "")[:300],
+                                              "model": (ansM.get(i) or "")[:300] if i in ansM else None}
                                              if i % max(1, len(cmds) // 5) == 0 else None))
     run.cov["sanitizer_findings"] = sorted(best)
     return run.finish(level=LEVEL,
                       rule="per function a valid stream (JSON/JS documents, pointers, patches, numbers, regexes, ini files, xstr op "
                            "sequences) and a malformed stream (truncated escapes/surrogates, dangling '~', 2^63 and 2^31 "
-                           "boundaries, nesting 997..1500, control/high bytes, byte mutations); every input in an exactly sized "
-                           "heap buffer under ASan+UBSan; each query answered twice: fresh (errno 0) and in a shuffled history "
-                           "with errno pre-set to ERANGE/EINVAL and a different heap fill byte; a case is one query line",
+                           "boundaries, nesting 997..1500, control/high bytes, byte mutations); regex matches into arrays of "
+                           "every size class (0, 1, odd, 2..66, 80, 128, 200 slots) with 0..40 groups of which all/some/none take "
+                           "part; every input in an exactly sized heap buffer under ASan+UBSan; each query answered in three "
+                           "states of the world: fresh (errno 0, caller storage and stack zero filled), after-history (shuffled "
+                           "order, errno ERANGE/EINVAL, caller storage/stack filled with 0xa5, other heap fill, long-lived "
+                           "objects already used once), reused-heap (no sanitizer: glibc hands freed chunks back, fill 0xff); "
+                           "all complete answers (return value, every output slot, errno where defined) must be equal and "
+                           "equal to the extracted model; a case is one query line",
                       assumptions=["partial by nature: UB inside code that is not modelled (binn reader, utf8proc tables, libc) is only "
                                    "sampled by the sanitizer runs",
                                    "strtoll/pow are modelled by their ISO C contract (value, end pointer, errno=ERANGE on overflow)"])
@@ -632,17 +746,24 @@ def replay(run, path):
     r = json.load(open(path))
     if "query" not in r:
         print(json.dumps(r, indent=1)); return 1
-    asan = vlib.build_harness("h_safety", "asan")
     q = r["query"]
-    ans, finds = run_batch(asan, ["%d %s" % (r.get("errno", 0), q)], {"ASAN_OPTIONS": "malloc_fill_byte=90"}, 40)
-    ans0, finds0 = run_batch(asan, ["0 " + q], {"ASAN_OPTIONS": "malloc_fill_byte=190"}, 40)
-    print("query:", q)
-    print("fresh (errno 0):", ans0[0], [k for _, k, _ in finds0])
-    print("errno %d, other heap fill:" % r.get("errno", 0), ans[0], [k for _, k, _ in finds])
+    e = r.get("errno", 0) or ERANGE
+    print("query:", q[:300])
     print("recorded:", r.get("key"), r.get("note"))
-    if finds or finds0:
-        rep = (finds or finds0)[0][2].split("\n")
-        for l in [l for l in rep if re.search(r"ERROR|runtime error|^\s+#[0-3] |SUMMARY|is located|Assertion", l)][:10]:
-            print(l[:200])
-        return 1
-    return 1 if ans[0] != ans0[0] else 0
+    answers, bad = [], False
+    for sname, build, heap, prefix in STATES:
+        exe = vlib.build_harness("h_safety", build)
+        ans, finds = run_batch(exe, ["%s %s" % (prefix(e), q)], {"ASAN_OPTIONS": heap or ""}, 40)
+        print("state %-14s (%s build, harness prefix %s): %s %s" % (sname, build, prefix(e), shorten(ans[0] or "<no answer>", 160), [k for _, k, _ in finds]))
+        answers.append(ans[0])
+        if finds:
+            bad = True
+            for l in [l for l in finds[0][2].split("\n") if re.search(r"ERROR|runtime error|^\s+#[0-3] |SUMMARY|is located|Assertion", l)][:10]:
+                print(l[:200])
+    if q.split()[0] in MODELLED:
+        rc, mout, _ = vlib.run_lines(vlib.build_model("safety"), q + "\n", timeout=120)
+        print("model (a function of the query alone):   ", shorten(mout[0] if mout else "<none>", 160))
+    if len(set(answers)) > 1:
+        print("=> the answers differ: the result depends on more than the input")
+        bad = True
+    return 1 if bad else 0
